@@ -1,5 +1,6 @@
 import PrimitivModel.Lemmas.MoveSpec
 import PrimitivModel.Lemmas.Adjoint
+import PrimitivModel.Props.C11.Move
 /-
 C01 (kernel level) — each backward kernel of the family is the transpose of its
 forward kernel: for every upstream gradient `gy`, every `x` and a zero initial
@@ -32,6 +33,10 @@ theorem Adjoint.pick {x y gy g : Tensor R} {ids : List Nat} {dim : Nat} {raw : N
   have hon : m.WritesOnce := by
     rw [hm]; exact (writesAll_of_id (size := ys.size) (fun _ => rfl) (by rw [pick_count, hysz])).2
   exact adjoint_of_same_idx m m.swap gy.data x.data raw x.shape.size ys.size rfl (fun _ _ => rfl) (fun _ _ => rfl) hfb hall hon
+
+-- an instance of the hypotheses: x = [[1,4,7],[2,5,8],[3,6,9]], ids = [1, 2] along axis 1, gy = ((1,2,3),(4,5,6))
+example : (match pickBw (α := Int) ⟨⟨[3], 2, 3⟩, fun i => i + 1, .here⟩ [1, 2] 1 ⟨⟨[3, 3], 1, 9⟩, fun _ => 0, .here⟩ with
+    | .ok g => (List.range 9).map g.data | .error _ => []) = [0, 0, 0, 1, 2, 3, 4, 5, 6] := by decide
 
 /-- batch_pick_bw is the transpose of batch_pick_fw -/
 theorem Adjoint.batch_pick {x y gy g : Tensor R} {ids : List Nat} {raw : Nat → R} (hx : WF x.shape)
@@ -325,15 +330,39 @@ theorem Adjoint.min [DecidableEq R] {x y gy g : Tensor R} {dim : Nat} (hx : WF x
       ∑ i ∈ range y.shape.size, gy.data i * dx (axisOff (lo x.shape dim) (lo x.shape dim * x.shape.get dim) i (am i)) :=
   Adjoint.max hx hy hgyw hb am ham dx
 
-/-- Unfinished: permute_dims_bw is the transpose of permute_dims_fw.  The model's
-backward loop is the forward loop with source and destination exchanged
-(`Front.permuteBw` returns `(permuteFwMoves …).swap`), so by `adjoint_of_same_idx`
-the statement reduces to "permute_dims_fw writes every output element exactly
-once" (`C11.Move.Kernel.permute_dims_fw_writes_all_full`: the mixed-radix
-re-encoding `permJ` is a bijection), which is not proved. -/
-def Adjoint.permute_dims_full : Prop :=
-  ∀ (x y gy g : Tensor Int) (perm : List Nat) (raw : Nat → Int), WF x.shape →
-    permuteFw x perm raw = .ok y → permuteBw x y gy perm (⟨x.shape, fun _ => 0, .here⟩) = .ok g →
-    ∑ j ∈ range x.shape.size, g.data j * x.data j = ∑ i ∈ range y.shape.size, gy.data i * y.data i
+/-- permute_dims_bw is the transpose of permute_dims_fw -/
+theorem Adjoint.permute_dims {x y gy g : Tensor R} {perm : List Nat} {raw : Nat → R} (hx : WF x.shape)
+    (hgyw : WF gy.shape) (hf : permuteFw x perm raw = .ok y)
+    (hb : permuteBw x y gy perm (zeroT x.shape) = .ok g) :
+    ∑ j ∈ range x.shape.size, g.data j * x.data j = ∑ i ∈ range y.shape.size, gy.data i * y.data i := by
+  unfold permuteFw at hf
+  obtain ⟨_, ys, m, hF, _, _, rfl⟩ := fw_inv hf
+  unfold permuteBw at hb
+  cases hc1 : checkDevice x with
+  | error e => simp [hc1, bind, Except.bind] at hb
+  | ok u1 =>
+  cases hc2 : checkDevice (⟨ys, scatterSet m.didx m.sidx x.data m.count raw, .here⟩ : Tensor R) with
+  | error e => simp [hc1, hc2, bind, Except.bind] at hb
+  | ok u2 =>
+  cases hc3 : checkDevice gy with
+  | error e => simp [hc1, hc2, hc3, bind, Except.bind] at hb
+  | ok u3 =>
+  cases hc4 : checkDevice (zeroT (R := R) x.shape) with
+  | error e => simp [hc1, hc2, hc3, hc4, bind, Except.bind] at hb
+  | ok u4 =>
+  cases hB : Front.permuteBw x.shape ys gy.shape (zeroT (R := R) x.shape).shape perm with
+  | error e => simp [hc1, hc2, hc3, hc4, hB, bind, Except.bind] at hb
+  | ok mb =>
+  simp only [hc1, hc2, hc3, hc4, hB, bind, Except.bind] at hb
+  obtain ⟨_, rfl⟩ := runAdd_inv hb
+  have hys : WF ys := (permuteFw_plan hx hF).2.2.1
+  obtain ⟨m', hF', rfl, _, _⟩ := permuteBw_plan hx hys hgyw hx hB
+  have : m' = m := by
+    have := hF.symm.trans hF'
+    simp only [Except.ok.injEq, Prod.mk.injEq, true_and] at this
+    exact this.symm
+  subst this
+  obtain ⟨hb1, hw, ho⟩ := C11.Move.Kernel.permute_dims_fw_in_bounds hx hF
+  exact adjoint_of_same_idx m' m'.swap gy.data x.data raw x.shape.size ys.size rfl (fun _ _ => rfl) (fun _ _ => rfl) hb1 hw ho
 
 end Primitiv.C01.Move
